@@ -26,7 +26,16 @@ let q_parse_op s = match sp '.' s with
   | ["sw"; i; j] -> Swap (ni (ios i), ni (ios j))
   | ["dc"; i] -> DefCtor (ni (ios i))
   | ["vo"] -> VecPop
+  | ["ve"; k] -> VecErase (ni (ios k))
+  (* au.i.t: pool[i] = std::unique_ptr<void, std::function<void(void* )>>(new T, deleter) through the re-exported base
+     operator=: the same operation as assigning a fresh make_quaint<T>() to an EXISTING pointer *)
+  | ["au"; i; t] -> Make (ni (ios i), ni (ios t))
   | _ -> failwith "qop"
+let q_is_adopt s = String.length s >= 3 && String.sub s 0 3 = "au."
+(* applicability of a wire operation: the adopting assignment needs an existing pointer object *)
+let q_app st (o, adopt) =
+  q_applicable st o && (not adopt || (match o with Make (i, _) -> (match nth_error st.pool i with Some (Live _) -> true | _ -> false) | _ -> true))
+let q_parse_ops ops = List.map (fun s -> (q_parse_op s, q_is_adopt s)) (list_of_field ops)
 let q_ntypes = 3
 let q_obs_ptr = function None -> "N" | Some (id, _) -> string_of_int (inn id)
 let q_obs_state st =
@@ -39,10 +48,10 @@ let q_obs_state st =
   String.concat "|" [field_of_list objs; field_of_list pool; field_of_list vecs; "c=" ^ String.concat "/" cs; "d=" ^ String.concat "/" ds]
 let model_q n ops =
   let st = ref (q_init (ni (ios n))) in
-  let parts = List.map (fun o ->
-      let a = q_applicable !st o in
-      st := q_step !st o;
-      (if a then "ok" else "skip") ^ "|" ^ q_obs_state !st) (List.map q_parse_op (list_of_field ops)) in
+  let parts = List.map (fun (o, adopt) ->
+      let a = q_app !st (o, adopt) in
+      if a then st := q_step !st o;
+      (if a then "ok" else "skip") ^ "|" ^ q_obs_state !st) (q_parse_ops ops) in
   String.concat ";" (parts @ ["fin|" ^ q_obs_state (q_finish !st)])
 
 (* observation -> a qstate as far as it is observable (the type remembered by a deleter is not) *)
@@ -69,7 +78,8 @@ let q_counters_ok st c d =
     (List.init q_ntypes (fun t -> t)) &&
   List.for_all (fun o -> inn o.otype < q_ntypes) st.heap
 let oracle_q n ops obs =
-  let ops = List.map q_parse_op (list_of_field ops) in
+  let wops = q_parse_ops ops in
+  let ops = List.map fst wops in
   let steps = List.map q_parse_step (sp ';' obs) in
   if List.length steps <> List.length ops + 1 then false else begin
     let prev = ref (q_init (ni (ios n))) in
@@ -78,8 +88,9 @@ let oracle_q n ops obs =
         let good =
           if k < List.length ops then begin
             let o = List.nth ops k in
-            let app = q_applicable !prev o in
+            let app = q_app !prev (List.nth wops k) in
             r = (if app then "ok" else "skip")
+            && (app || (st.heap = !prev.heap && st.pool = !prev.pool && st.vec = !prev.vec))
             (* every object: destroyed at most once, by its creation type, iff not alive; alive iff exactly one owner *)
             && q_state_ok st && q_counters_ok st c d
             (* nothing forgotten, retyped, revived *)
@@ -213,7 +224,7 @@ let d_parse_wire s = match sp '.' s with
   | ["lq"; i; j; s] -> WOp (DLoad (ni (ios i), ni (ios j), ni (ios s)), true)
   (* the value category of the library object (named lvalue / std::move(named) / temporary) is a driver-side dimension:
      the model has ONE load, on the handle *)
-  | ["lm"; i; j; s] -> WOp (DLoad (ni (ios i), ni (ios j), ni (ios s)), false)
+  | [("lm" | "lg"); i; j; s] -> WOp (DLoad (ni (ios i), ni (ios j), ni (ios s)), false)   (* lg: symbol<T>(lib.get(), name) *)
   | ["lt"; i; j; t; s] -> WTemp (ni (ios i), ni (ios j), ni (ios t), ni (ios s))
   | ["tc"; i; t; f; s] -> WScoped (ni (ios i), ni (ios t), ni (ios f), ni (ios s), false)
   | ["tq"; i; t; f; s] -> WScoped (ni (ios i), ni (ios t), ni (ios f), ni (ios s), true)
